@@ -8,11 +8,13 @@ tie:    T3 differential run of the extracted model against snoopy_filter_only_ui
         uid, complement, independence of the effective uid) is evaluated on every implementation verdict.
 """
 import json, os
-from vlib.core import hexs, unhex, corr_stream, VERIF, CheckError
+from vlib.core import hexs, hexlist, unhex, corr_stream, VERIF, CheckError
 from vlib.tr_filter import tr_filter
 from vlib.filt import AREA, UIDS, build_impl, probe, uid_list, malformed_list, near_misses, numeral, shrink_list, FAST_ASAN
 
 EUIDS = [0, 7, 1000, 65534, 2 ** 32 - 2]
+HIGH_UIDS = [2 ** 32 - 10, 2 ** 32 - 6, 2 ** 32 - 3]      # the top of the uid range (2^32-1 is not a uid), fewer lists each
+ERRNOS = [34, 22]                                        # ERANGE, EINVAL: what the host program may have left in errno
 
 
 def corpus_cases():
@@ -33,13 +35,14 @@ def other_euid(rng, r):
 
 def gen_cases(rng, tier):
     """returns (cases, meta); meta[i] = dict(kind, uid, n, include)"""
-    per_uid = 250 if tier == "quick" else 2200
+    per_uid_full = 250 if tier == "quick" else 2200
     cases, meta = [], []
 
     def add(line, **m):
         cases.append(line)
         meta.append(m)
-    for r in UIDS:
+    for r in UIDS + HIGH_UIDS:
+        per_uid = per_uid_full if r in UIDS else max(10, per_uid_full // 6)
         e1 = other_euid(rng, r)
         add("uidf\troot\t%d\t%d\t%s" % (r, r, hexs(b"ignored")), kind="root", uid=r)
         # every effective uid in turn: only_root, and the list that names exactly the EFFECTIVE uid
@@ -54,6 +57,11 @@ def gen_cases(rng, tier):
         for v in [r] + near_misses(r):
             for w in ("only", "exclude"):
                 add("uidf\t%s\t%d\t%d\t%s" % (w, r, e1, hexs(b"%d" % v)), kind="wf", uid=r, n=1, include=(v == r))
+        # the same decisions with a stale errno of the host program
+        for v in [r, r + 1 if r + 1 < 2 ** 32 else r - 1]:
+            for w in ("only", "exclude"):
+                for en in ERRNOS:
+                    add("uidf\t%s\t%d\t%d\t%s\t%d" % (w, r, e1, hexs(b"%d" % v), en), kind="wf", uid=r, n=1, include=(v == r))
         for k in range(per_uid):
             n = rng.choice([1, 1, 2, 3, 5, 10, 50, 127, 128, 129, 199, 200, 255, 256, 257, 300, 520]) if k % 4 else rng.randrange(1, 201)
             inc = rng.random() < 0.5
@@ -61,6 +69,9 @@ def gen_cases(rng, tier):
             e = other_euid(rng, r) if rng.random() < 0.8 else r
             for w in ("only", "exclude"):
                 add("uidf\t%s\t%d\t%d\t%s" % (w, r, e, hexs(L)), kind="wf", uid=r, n=L.count(b",") + 1, include=inc)
+            if k % 5 == 1:
+                for w in ("only", "exclude"):
+                    add("uidf\t%s\t%d\t%d\t%s\t%d" % (w, r, e, hexs(L), ERRNOS[k % 2]), kind="wf", uid=r, n=L.count(b",") + 1, include=inc)
             if k % 4 == 0:
                 # the same decision under another effective uid, and through the chain
                 e2 = rng.choice([x for x in EUIDS if x not in (r, e)])
@@ -76,6 +87,8 @@ def gen_cases(rng, tier):
             e = other_euid(rng, r)
             for w in ("only", "exclude"):
                 add("uidf\t%s\t%d\t%d\t%s" % (w, r, e, hexs(M)), kind="malformed", uid=r)
+                if k % 3 == 0:
+                    add("uidf\t%s\t%d\t%d\t%s\t%d" % (w, r, e, hexs(M), ERRNOS[0]), kind="malformed", uid=r)
             add("csv\t%s" % hexs(M), kind="csv", uid=r)
     # one and the same list under every real uid in turn (a decision must not survive from the previous call)
     for k in range(6 if tier == "quick" else 60):
@@ -132,7 +145,7 @@ def minimise(run, exe, case):
     if f[0] != "uidf" or f[1] == "root" or exe is None:
         return case
     items = (unhex(f[4]) or b"").split(b",")
-    mk = lambda its: "\t".join(f[:4] + [hexs(b",".join(its))])
+    mk = lambda its: "\t".join(f[:4] + [hexs(b",".join(its))] + f[5:])
     items = shrink_list(items, lambda its: fails(run, exe, mk(its)))
     stripped = [it.lstrip(b"0") or b"0" for it in items]
     if stripped != items and fails(run, exe, mk(stripped)):
@@ -172,16 +185,29 @@ def classify(run, res, cases, stream, exe=None):
             shrunk.add(sig)
             seq = reproduce(run, exe, cases, i)
             c = seq[-1]
-        run.violation(sig, "sanitizer", "implementation faulted (%s) on %s" % (impl, "\t".join(c.split("\t")[:4]) + "\t" + repr((unhex(c.split("\t")[-1]) or b"")[:80]))
+        run.violation(sig, "sanitizer", "implementation faulted (%s) on %s" % (impl, "\t".join(c.split("\t")[:4]) + "\t" + repr((unhex(c.split("\t")[4] if len(c.split("\t")) > 4 else c.split("\t")[-1]) or b"")[:80]))
                       + (" (as the last of %d calls in one process)" % len(seq) if len(seq) > 1 else ""),
                       {"stream": stream, "failing_input": c, "impl_output": impl, "model_output": res["model"][i], "cases": seq})
         nv += 1
     # complement and independence of the effective uid, on the implementation's verdicts
-    by = {}
+    by, by_errno = {}, {}
     for c, o in zip(cases, res["impl"]):
         f = c.split("\t")
         if f[0] == "uidf" and o.startswith("ok\t"):
-            by.setdefault((f[2], f[4]), {}).setdefault(f[1], {})[f[3]] = o.split("\t")[1]
+            if len(f) == 5:
+                by.setdefault((f[2], f[4]), {}).setdefault(f[1], {})[f[3]] = o.split("\t")[1]
+            by_errno.setdefault((f[1], f[2], f[3], f[4]), {})[f[5] if len(f) > 5 else "0"] = o.split("\t")[1]
+    # the host program's errno must not influence a decision (any argument, well formed or not)
+    nerr = 0
+    for (w, r, e, arg), d in by_errno.items():
+        if len(set(d.values())) > 1 and nerr < 3:
+            nerr += 1
+            en = sorted(d, key=lambda x: (x == "0", x))
+            cs = ["uidf\t%s\t%s\t%s\t%s%s" % (w, r, e, arg, "" if x == "0" else "\t" + x) for x in (en[-1], en[0])]
+            run.violation("spec:errno-dependence", "spec_violation", "%s under real uid %s decides %s on the argument %r depending on the value errno had before the call"
+                          % ({"only": "only_uid", "exclude": "exclude_uid", "root": "only_root"}[w], r, sorted(d.items()), (unhex(arg) or b"")[:120]),
+                          {"stream": stream, "failing_input": cs[1], "cases": cs})
+            nv += 1
     pairs, idx = [], []
     for (r, arg), d in by.items():
         for w, per_e in d.items():
@@ -228,6 +254,41 @@ def check(run):
         allcases = corp + cases
         res = corr_stream(run, AREA, exe, allcases, spec_line=spec_line, stream="uid", impl_env=FAST_ASAN)
     nv, npairs = classify(run, res, allcases, "uid", exe)
+    # concurrent callers (impl only): each thread evaluates its own one-filter chain over and over; every decision must equal the
+    # one the same chain gets alone (C14_real_uid: a function of the real uid and the list, nothing else)
+    mt = {"cases": 0}
+    if len(res["faults"]) <= 20:
+        rng2 = run.rng
+        iters = 600 if run.tier == "quick" else 5000
+        mtc = []
+        for r in (0, 1000, 2 ** 32 - 2):
+            A = uid_list(rng2, r, 200, False) + b",%d" % r            # the uid is the last of 201 entries
+            B = uid_list(rng2, r, 150, False)
+            C = b",".join(b"%d" % (r + 1 if r < 2 ** 32 - 2 else 7) for _ in range(80)) + b",%d,12" % r
+            mtc.append("mt\t%d\t7\t0\t%d\t%s" % (r, iters, hexlist([b"only_uid:" + A[:900].rsplit(b",", 1)[0] + b",%d" % r, b"exclude_uid:" + B[:900].rsplit(b",", 1)[0]])))
+            mtc.append("mt\t%d\t7\t0\t%d\t%s" % (r, iters, hexlist([b"exclude_uid:" + C, b"only_uid:" + B[:900].rsplit(b",", 1)[0], b"only_uid:" + C, b"only_root"])))
+        d = os.path.join(run.scratch, "mt")
+        os.makedirs(d, exist_ok=True)
+        cp = os.path.join(d, "cases.txt")
+        open(cp, "w").write("".join(c + "\n" for c in mtc))
+        outs = run.run_impl(exe, cp, os.path.join(d, "impl.out"), env=FAST_ASAN)
+        for c, o in zip(mtc, outs):
+            f = c.split("\t")
+            chains = [unhex(x) or b"" for x in f[5].split(",")]
+            if not o.startswith("ok\t"):
+                run.violation("fault:%s" % o.split("\t")[0], "sanitizer", "implementation faulted (%s) with %d threads evaluating uid filters concurrently under real uid %s" % (o, len(chains), f[1]),
+                              {"stream": "mt", "failing_input": c, "impl_output": o, "cases": [c]})
+                nv += 1
+                continue
+            bad = [(chains[i], x) for i, x in enumerate(o.split("\t")[1].split(",")) if x[1:] != "0"]
+            if bad:
+                ch, x = bad[0]
+                run.violation("mt:decision-changes-under-concurrency", "spec_violation",
+                              "%r decides %s alone under real uid %s, but %s of %d evaluations decided otherwise while %d other thread(s) evaluated other lists"
+                              % (ch[:100], "pass" if x[0] == "P" else "drop", f[1], x[1:], iters, len(chains) - 1),
+                              {"stream": "mt", "failing_input": c, "impl_output": o, "cases": [c]})
+                nv += 1
+        mt = {"cases": len(mtc), "iterations": iters}
     if not ok and nv == 0:
         run.violation("proof:%s" % failed, "proof", "proof obligation no longer checks: %s; %s\n%s" % (failed, "; ".join(n for n in run.notes if n.startswith("translator") or n.startswith("skeleton")) or "the translator recognised every statement (the regenerated constants themselves violate the side condition)", log[-1500:]),
                       {"theorem": failed, "coq_log": log[-3000:], "translator_notes": [n for n in run.notes if n.startswith("translator") or n.startswith("skeleton")]})
@@ -245,13 +306,13 @@ def check(run):
     distinct = len(set(c for c, m in wf if m["n"] >= 2))
     run.coverage.update({
         "evaluations": len(allcases), "distinct_nontrivial": distinct,
-        "rule": "per real uid in %s (effective uid unrelated): the uid itself and each near miss (uid+-1, decimal prefixes and suffixes, x10, +2^31) as one-element lists; "
+        "rule": "per real uid in %s and (fewer lists) 2^32-10, 2^32-6, 2^32-3 (effective uid unrelated; a share of the cases with errno preset to ERANGE / EINVAL): the uid itself and each near miss (uid+-1, decimal prefixes and suffixes, x10, +2^31) as one-element lists; "
                 "well-formed lists of 1..520 numerals (leading zeros, duplicates, any order) with and without the uid; the same list under a second effective uid and inside a chain; "
                 "malformed lists for complement / crash freedom; csvToArgList on random strings; non-trivial = distinct well-formed case with >= 2 entries" % UIDS,
         "samples": [c[:300] for c in allcases[:: max(1, len(allcases) // 5)]][:5],
         "distribution": {"uids": UIDS, "corpus_cases": len(corp), "kinds": {k: sum(1 for m in meta if m["kind"] == k) for k in ("wf", "malformed", "root", "chain", "csv")},
                          "listed": sum(1 for c, m in wf if m["include"]), "not_listed": sum(1 for c, m in wf if not m["include"]), "max_entries": max([m["n"] for c, m in wf] or [0]),
-                         "complement_pairs": npairs, "mismatches": len(res["mismatch"]), "spec_failures": len(res["spec_bad"]), "impl_faults": len(res["faults"])},
+                         "complement_pairs": npairs, "concurrent": mt, "mismatches": len(res["mismatch"]), "spec_failures": len(res["spec_bad"]), "impl_faults": len(res["faults"])},
         "traces_validated_against_impl": len(allcases) - len(res["mismatch"]),
     })
     return run.finish(
@@ -273,6 +334,22 @@ def replay(run, path):
         print("proof-only violation (%s): re-run ./check C14 quick" % rep.get("theorem"))
         run.cleanup()
         return 1
+    mtc = [c for c in cases if c.startswith("mt\t")]
+    cases = [c for c in cases if not c.startswith("mt\t")]
+    mt_bad = 0
+    if mtc:
+        p = os.path.join(run.scratch, "replay-mt.txt")
+        open(p, "w").write("".join(c + "\n" for c in mtc))
+        for attempt in range(3):          # a race: a few attempts
+            outs = run.run_impl(exe, p, p + ".out", env=FAST_ASAN)
+            for c, o in zip(mtc, outs):
+                print("case:", "\t".join(c.split("\t")[:5]), [(unhex(x) or b"")[:60] for x in c.split("\t")[5].split(",")], "\n impl: ", o)
+            if any((not o.startswith("ok\t")) or any(x[1:] != "0" for x in o.split("\t")[1].split(",")) for o in outs):
+                mt_bad = 1
+                break
+        if not cases:
+            run.cleanup()
+            return mt_bad
     res = corr_stream(run, AREA, exe, cases, spec_line=spec_line, stream="replay", impl_env=FAST_ASAN)
     for i, c in enumerate(cases):
         f = c.split("\t")
@@ -282,4 +359,4 @@ def replay(run, path):
     nv, _ = classify(run, res, cases, "replay")
     print("spec failures: %d, faults: %d, mismatches: %d" % (len(res["spec_bad"]), len(res["faults"]), len(res["mismatch"])))
     run.cleanup()
-    return 1 if nv or res["mismatch"] else 0
+    return 1 if nv or res["mismatch"] or mt_bad else 0
